@@ -126,6 +126,24 @@ for _k in list(NOT_YET):
     if _k in CHECKS:
         del NOT_YET[_k]
 
+CHECKS.update({
+    "C07": dict(
+        text="Paired simulations of the same scenario under perturbed identifier streams (uuid seam), shifted container "
+             "numbers, preceding simulations in the process and fresh interpreters under other PYTHONHASHSEED values; canonical "
+             "logs and statistics must be identical; generator stream compared across scheduler/executor settings and seeds.",
+        note="Canonical identifiers are keyed on arrival order, operator position and first appearance of container ids, never on "
+             "object addresses. 'Different seeds differ' is asserted only for workloads with >= 200 pipelines and two classes "
+             "of probability >= 0.1.", ref="DESIGN 4/C07"),
+    "C19": dict(
+        text="The real rest scheduler over a simulated transport (real JSON both ways), driven by a port of the Go reference "
+             "scheduler and by a seeded random admissible policy incl. suspensions, with seeded network latencies on the "
+             "wall-clock seam; per-request oracles plus a transparency twin run through an in-process scheduler.",
+        note="HTTP and the external scheduler are stubs; go/ is not executed (no toolchain).", ref="DESIGN 4/C19"),
+})
+for _k in list(NOT_YET):
+    if _k in CHECKS:
+        del NOT_YET[_k]
+
 
 def main():
     checks = []
